@@ -42,7 +42,8 @@ EmptyLayer == [k \in Keys |-> [t \in Time |-> None]]
 NoTomb == [k \in Keys |-> {}]
 FileT == [data : Layer, tomb : [Keys -> SUBSET Time]]
 Point == [k : Keys, t : Time, v : Vals]
-Batches == UNION {[1..n -> Point] : n \in 1..MaxBatch}
+\* (with a parameter: TLC pre-computes zero-arity constant definitions, the generator uses a large MaxBatch)
+Batches(m) == UNION {[1..n -> Point] : n \in 1..m}
 
 -----------------------------------------------------------------------------
 \* later layer wins where it has a value
@@ -168,7 +169,7 @@ Physical ==
   \/ \E i, j \in 1..MaxFiles, m \in Modes : Compact(i, j, m) \/ CompactAbort(i, j, m)
 
 Next ==
-  \/ \E b \in Batches : Write(b)
+  \/ \E b \in Batches(MaxBatch) : Write(b)
   \/ \E K \in (SUBSET Keys) \ {{}}, lo, hi \in Time : DeleteRange(K, lo, hi)
   \/ Physical
 
@@ -192,13 +193,22 @@ C02_ReadIsLww ==
   \A k \in Keys, lo, hi \in Time, dir \in {"asc", "desc"} :
      lo <= hi => RangeSeq(r, k, lo, hi, dir) = RangeSeq(acked, k, lo, hi, dir)
 
-\* C02: re-writing identical points changes nothing (action property)
-Identical(b) == \A i \in 1..Len(b) : acked[b[i].k][b[i].t] = b[i].v
-C02_IdempotentRewrite ==
-  [][\A b \in Batches : (Identical(b) /\ Write(b)) => (ReadAll' = ReadAll /\ acked' = acked)]_vars
+\* Which kind of step was taken is read off the counters (every Write increments cnt.w, every
+\* DeleteRange cnt.d, nothing else touches them): evaluating the action definitions again on every
+\* transition made TLC ~20x slower.  StepKindsAgree states the equivalence and is checked on its own.
+IsWriteStep == cnt'.w = cnt.w + 1
+IsPhysicalStep == cnt'.w = cnt.w /\ cnt'.d = cnt.d
+StepKindsAgree == [][(Physical <=> IsPhysicalStep) /\ ((\E b \in Batches(MaxBatch) : Write(b)) <=> IsWriteStep)]_vars
 
-\* C09 (engine level): no physical action changes what reads return (action property)
-C09_ContentPreserved == [][Physical => (ReadAll' = ReadAll /\ acked' = acked)]_vars
+\* C02: re-writing identical points changes nothing (action property): a write after which the
+\* acknowledged history is what it was before leaves every read unchanged
+Identical(b) == \A i \in 1..Len(b) : acked[b[i].k][b[i].t] = b[i].v
+C02_IdempotentRewrite == [][(IsWriteStep /\ acked' = acked) => ReadAll' = ReadAll]_vars
+IdenticalLeavesAcked == [][\A b \in Batches(MaxBatch) : (Identical(b) /\ Write(b)) => acked' = acked]_vars
+
+\* C09 (engine level): no physical action (snapshot begin / install / fail, compaction, aborted
+\* compaction, reopen) changes what reads return (action property)
+C09_ContentPreserved == [][IsPhysicalStep => (ReadAll' = ReadAll /\ acked' = acked)]_vars
 
 \* non-vacuity witnesses (checked to be violated by dedicated configs)
 NeverThreeLayers == ~(Len(files) >= 2 /\ snapActive /\ cache # EmptyLayer)
